@@ -124,6 +124,8 @@ package plugins
 //@   props C14 C20
 //@   requires inv(lrw)
 //@   ensures inv: inv(lrw)
+//@   ensures hijack_forwarded: implements(lrw.ResponseWriter, http.Hijacker) && result2 == nil ==> lrw.ResponseWriter.hijacked
+//@   ensures unsupported_is_an_error: !implements(lrw.ResponseWriter, http.Hijacker) ==> result2 != nil
 //@   modifies lrw.wroteHeader, http.ResponseWriter.hijacked
 
 //@ func (*limitedResponseWriter).finish
@@ -217,6 +219,8 @@ package plugins
 //@   props C15 C20
 //@   requires inv(g)
 //@   ensures inv: inv(g)
+//@   ensures hijack_forwarded: implements(g.ResponseWriter, http.Hijacker) && result2 == nil ==> g.ResponseWriter.hijacked
+//@   ensures unsupported_is_an_error: !implements(g.ResponseWriter, http.Hijacker) ==> result2 != nil
 //@   modifies http.ResponseWriter.hijacked
 
 // content-type eligibility
@@ -355,3 +359,14 @@ package plugins
 //@   invariant separate: contentTypes.base != 0 && !preexisting(contentTypes.base)
 //@   invariant others_kept: forall x int :: {backing(x, []string)} preexisting(x) ==> backing(x, []string) == old(backing(x, []string))
 //@   decreases len(rawTypes) - rangeindex
+
+// ---- optional writer interfaces survive every plugin wrapper (C20: Upgrade needs Hijack through any chain)
+//@ forwards statusRecorder : http.Flusher, http.Hijacker props C20
+//@ forwards limitedResponseWriter : http.Flusher, http.Hijacker props C20 C14
+//@ forwards gzipResponseWriter : http.Flusher, http.Hijacker props C20 C15
+//@ func (*statusRecorder).Hijack
+//@   props C20
+//@   requires sr.ResponseWriter != nil
+//@   ensures hijack_forwarded: implements(sr.ResponseWriter, http.Hijacker) && result2 == nil ==> sr.ResponseWriter.hijacked
+//@   ensures unsupported_is_an_error: !implements(sr.ResponseWriter, http.Hijacker) ==> result2 != nil
+//@   modifies http.ResponseWriter.hijacked
